@@ -160,17 +160,22 @@ def clampMtime (sd : Option Nat) (m : Nat) : Nat :=
 /-- position of a file's directory in the ordered directory set -/
 def dirIndex (dirs : List Bytes) (d : Bytes) : Nat := (dirs.findIdx? (· == d)).getD 0
 
-/-- what `prepare_data` sees besides the builder state -/
+/-- `match source_date { Some(t) if t < now => t, _ => now }` : build time and signature time -/
+def clampNow (sd : Option Nat) (now : Nat) : Nat :=
+  match sd with
+  | some t => if t < now then t else now
+  | Option.none => now
+
+/-- what `prepare_data` puts into the header besides the builder state: the build time (the clock enters
+only through it) and the two payload digests -/
 structure Ctx where
   c : Cfg
-  now : Nat
+  bt : Nat
   payloadShaHex : Bytes
   archiveShaHex : Bytes
 
-def Ctx.buildTime (x : Ctx) : Nat :=
-  match x.c.sourceDate with
-  | some t => if t < x.now then t else x.now
-  | Option.none => x.now
+def mkCtx (c : Cfg) (now : Nat) (payloadShaHex archiveShaHex : Bytes) : Ctx :=
+  ⟨c, clampNow c.sourceDate now, payloadShaHex, archiveShaHex⟩
 
 /-- a slot of the header: its tag and the data `prepare_data` emits for it (or nothing) -/
 abbrev Slot := Nat × (Ctx → Option IndexData)
@@ -217,7 +222,7 @@ def slots : List Slot :=
     (IndexTag.RPMTAG_ARCH, always fun x => .str x.c.arch),
     (IndexTag.RPMTAG_ENCODING, always fun _ => .str sUtf8),
     (IndexTag.RPMTAG_PAYLOADFORMAT, always fun _ => .str sCpio),
-    (IndexTag.RPMTAG_BUILDTIME, always fun x => .int32 [x.buildTime]),
+    (IndexTag.RPMTAG_BUILDTIME, always fun x => .int32 [x.bt]),
     (IndexTag.RPMTAG_BUILDHOST, optS (·.buildHost)),
     (IndexTag.RPMTAG_LONGFILESIZES, fun x => if x.c.files.isEmpty || !usesLargeFiles x.c then none else some (.int64 (x.c.files.map (·.size)))),
     (IndexTag.RPMTAG_FILESIZES, fun x => if x.c.files.isEmpty || usesLargeFiles x.c then none else some (.int32 (x.c.files.map (·.size)))),
@@ -274,7 +279,7 @@ def recordsOf (x : Ctx) : List (Nat × IndexData) :=
   slots.filterMap fun s => (s.2 x).map fun d => (s.1, d)
 
 def records (c : Cfg) (now : Nat) (payloadShaHex archiveShaHex : Bytes) : List (Nat × IndexData) :=
-  recordsOf ⟨c, now, payloadShaHex, archiveShaHex⟩
+  recordsOf (mkCtx c now payloadShaHex archiveShaHex)
 
 /-- the main header `prepare_data` builds -/
 def mainHeader (c : Cfg) (now : Nat) (payloadShaHex archiveShaHex : Bytes) : Header :=
